@@ -34,7 +34,7 @@ Definition so_se_literals : list bytes := [hex "6964"; hex "66726f6d"; hex "786d
 Definition so_raw_push_after_inc : bool := true.
 Definition so_raw_lookup_innermost : bool := true.
 Definition so_raw_pop_before_dec : bool := true.
-Definition so_raw_pop_cmp : bytes := hex "3e3d".
+Definition so_raw_pop_cmp : bytes := hex "3e".
 Definition so_raw_pop_rhs_is_depth : bool := true.
 
 (* ---- session.go negotiateSession: the configuration of the stanza encoder ---- *)
